@@ -22,6 +22,7 @@ import (
 
 	"github.com/coreruleset/crs-toolchain/v2/regex"
 	"github.com/coreruleset/crs-toolchain/v2/regex/processors"
+	"github.com/coreruleset/crs-toolchain/v2/utils"
 )
 
 var logger = log.With().Str("component", "parser").Logger()
@@ -109,7 +110,7 @@ func NewParser(ctx *processors.Context, reader io.Reader) *Parser {
 // Parse does the parsing and returns a buffer with all the bytes to process or an error if the reader
 // could not be parsed.
 func (p *Parser) Parse(formatOnly bool) (*bytes.Buffer, int) {
-	fileScanner := bufio.NewScanner(p.src)
+	fileScanner := utils.NewLineScanner(p.src)
 	fileScanner.Split(bufio.ScanLines)
 	wrote := 0
 	var text string
